@@ -1042,18 +1042,29 @@ func describePath(g *routerGen, path []*redge, last *redge) []string {
 }
 
 // replayEdge rebuilds the source state along the BFS tree, performs the edge's call and compares.
-func (rr *routerReplayer) replayEdge(e *redge) {
+func (rr *routerReplayer) replayEdge(e *redge) { rr.replayEdgeAfter(e, nil) }
+
+// replayEdgeAfter replays e after a shortest history into its source state and, when noop is given, one more call
+// there that leaves the state of the specification unchanged (a refused write, a call on a settled transaction, a
+// Commit or Abort that has nothing to do): what follows such a call behaves as if it had not been made.
+func (rr *routerReplayer) replayEdgeAfter(e, noop *redge) {
 	if rr.r.tooManyViolations() {
 		return
 	}
-	hist := func() []string { return describePath(rr.g, rr.pathTo(e.from), e) }
-	rr.r.guard("router history "+strings.Join(hist(), " ; "), func() map[string]any { return map[string]any{"history": hist()} }, func() { rr.replayEdgeInner(e) })
+	full := func() []*redge {
+		p := rr.pathTo(e.from)
+		if noop != nil {
+			p = append(append([]*redge(nil), p...), noop)
+		}
+		return p
+	}
+	hist := func() []string { return describePath(rr.g, full(), e) }
+	rr.r.guard("router history "+strings.Join(hist(), " ; "), func() map[string]any { return map[string]any{"history": hist()} }, func() { rr.replayEdgeInner(e, full()) })
 }
 
-func (rr *routerReplayer) replayEdgeInner(e *redge) {
+func (rr *routerReplayer) replayEdgeInner(e *redge, path []*redge) {
 	c := newConcrete(rr.g)
 	defer c.close()
-	path := rr.pathTo(e.from)
 	for _, pe := range path {
 		got := c.apply(pe.op)
 		if ok, _ := c.resultAgrees(pe.op, got); !ok {
@@ -1206,6 +1217,29 @@ func exploreRouter(r *Run, g *routerGen, timeout time.Duration, maxEdges int) *r
 		r.setCov("exhaustive", true)
 	}
 	parallel(len(edges), func(i int) { rr.replayEdge(edges[i]) })
+	// the same edges once more after a call that changes nothing in the specification (one edge in three in the quick
+	// tier, every edge in the thorough tier; which no-op is taken depends on the seed)
+	selfLoops := map[string][]*redge{}
+	for _, e := range rr.edges {
+		if e.from == e.to {
+			selfLoops[e.from] = append(selfLoops[e.from], e)
+		}
+	}
+	var afterNoop atomic.Int64
+	parallel(len(edges), func(i int) {
+		e := edges[i]
+		sl := selfLoops[e.from]
+		if len(sl) == 0 || (r.quick() && (i+int(r.Seed))%3 != 0) {
+			return
+		}
+		q := sl[(i*7+int(r.Seed))%len(sl)]
+		if q == e {
+			return
+		}
+		rr.replayEdgeAfter(e, q)
+		afterNoop.Add(1)
+	})
+	r.addCov("edges_replayed_after_a_noop_call", afterNoop.Load())
 	r.addCov("traces_validated_against_impl", rr.replayed.Load())
 	r.addCov("edges_replayed", rr.replayed.Load())
 	r.addCov("edges_with_effect_or_error", rr.nontrivial.Load())
